@@ -11,6 +11,8 @@
 #include <fstream>
 #include <sstream>
 #include <algorithm>
+#include <unistd.h>
+#include <sys/wait.h>
 extern "C" {
 #include <constraints.h>
 }
@@ -188,6 +190,65 @@ static std::string describe(const Case &c) {
     return s;
 }
 
+
+// ---------------------------------------------------------------- process isolation
+// Every stage that calls into the library runs in a forked child of a parent that never does: value generation,
+// the solo reference, and EACH schedule start from pristine library statics, so that races in lazily initialised
+// state (which exist only until the first use has completed) are explored by every schedule, not just by the first
+// one a worker process happens to run.
+struct Buf {
+    Bytes b; size_t rd = 0;
+    void u64(uint64_t v) { for(int i = 0; i < 8; i++) b.push_back((uint8_t)(v >> (8 * i))); }
+    void bytes(const void *p, size_t n) { u64(n); b.insert(b.end(), (const uint8_t *)p, (const uint8_t *)p + n); }
+    void str(const std::string &x) { bytes(x.data(), x.size()); }
+    uint64_t g64() { uint64_t v = 0; if(rd + 8 > b.size()) { rd = b.size(); return 0; } for(int i = 0; i < 8; i++) v |= (uint64_t)b[rd + i] << (8 * i); rd += 8; return v; }
+    Bytes gbytes() { uint64_t n = g64(); if(rd + n > b.size()) { rd = b.size(); return Bytes(); } Bytes r(b.begin() + rd, b.begin() + rd + n); rd += n; return r; }
+    std::string gstr() { Bytes r = gbytes(); return std::string(r.begin(), r.end()); }
+};
+
+struct ChildResult { bool ok = false; int status = 0; Buf out; };
+static ChildResult in_child(const std::function<void(Buf &)> &fn) {
+    ChildResult cr;
+    int pfd[2];
+    if(pipe(pfd) != 0) return cr;
+    fflush(stdout); fflush(stderr);
+    pid_t pid = fork();
+    if(pid == 0) {
+        close(pfd[0]);
+        Buf o; fn(o);
+        size_t off = 0;
+        while(off < o.b.size()) { ssize_t w = write(pfd[1], o.b.data() + off, o.b.size() - off); if(w <= 0) break; off += (size_t)w; }
+        _exit(0);
+    }
+    close(pfd[1]);
+    uint8_t tmp[65536]; ssize_t n;
+    while((n = read(pfd[0], tmp, sizeof tmp)) > 0) cr.out.b.insert(cr.out.b.end(), tmp, tmp + n);
+    close(pfd[0]);
+    int st = 0; waitpid(pid, &st, 0);
+    cr.status = st; cr.ok = WIFEXITED(st) && WEXITSTATUS(st) == 0;
+    return cr;
+}
+static std::string death_text(int st) {
+    if(WIFSIGNALED(st)) return "signal-" + L(WTERMSIG(st));
+    return "exit-" + L(WEXITSTATUS(st));
+}
+
+static void put_case(Buf &o, const Case &c) {
+    o.u64((uint64_t)c.nthreads); o.u64(c.inputs.size());
+    for(auto &in : c.inputs) { o.str(in.td->name); o.u64(in.enc.size()); for(auto &kv : in.enc) { o.u64((uint64_t)kv.first); o.bytes(kv.second.data(), kv.second.size()); } }
+    for(auto &t : c.threads) { o.u64(t.script.size()); for(auto &op : t.script) { o.u64((uint64_t)op.kind); o.u64((uint64_t)op.input); o.u64((uint64_t)op.syntax); o.u64((uint64_t)op.chunk); } }
+}
+static bool get_case(Buf &i, Case &c) {
+    c.nthreads = (int)i.g64(); size_t ni = (size_t)i.g64();
+    if(c.nthreads < 1 || c.nthreads > TSL_MAXT || ni == 0 || ni > 64) return false;
+    for(size_t k = 0; k < ni; k++) { Input in; in.td = pdu_by_name(i.gstr()); if(!in.td) return false; size_t ne = (size_t)i.g64(); for(size_t e = 0; e < ne && e < 16; e++) { int sy = (int)i.g64(); in.enc[sy] = i.gbytes(); } c.inputs.push_back(in); }
+    c.threads.resize((size_t)c.nthreads);
+    for(auto &t : c.threads) { t.inputs = &c.inputs; size_t ns = (size_t)i.g64(); if(ns > 64) return false; for(size_t k = 0; k < ns; k++) { ScriptOp op; op.kind = (int)i.g64(); op.input = (int)i.g64(); op.syntax = (int)i.g64(); op.chunk = (int)i.g64(); if(op.input < 0 || (size_t)op.input >= ni) return false; t.script.push_back(op); } }
+    return true;
+}
+static void put_results(Buf &o, const std::vector<std::vector<OpResult>> &r) { o.u64(r.size()); for(auto &v : r) { o.u64(v.size()); for(auto &x : v) { o.u64((uint64_t)(int64_t)x.a); o.u64((uint64_t)x.b); o.u64(x.h); o.u64((uint64_t)(int64_t)x.err); } } }
+static void get_results(Buf &i, std::vector<std::vector<OpResult>> &r) { size_t n = (size_t)i.g64(); r.clear(); for(size_t t = 0; t < n && t < 8; t++) { size_t m = (size_t)i.g64(); std::vector<OpResult> v; for(size_t k = 0; k < m && k < 64; k++) { OpResult x; x.a = (int)(int64_t)i.g64(); x.b = (long)i.g64(); x.h = i.g64(); x.err = (int)(int64_t)i.g64(); v.push_back(x); } r.push_back(v); } }
+
 // ---------------------------------------------------------------- one schedule
 struct SchedOutcome { bool violated = false; std::string cls, detail, site; tsl_stats st; };
 
@@ -249,12 +310,32 @@ static bool exec_case(uint64_t run_seed, int only_sched, unsigned nsched, bool r
         snprintf(hb0, sizeof hb0, "property C19\nprogram %s\nverif_seed %llu\nrun_seed %llu\nsched all\n", SIM_PROGRAM, (unsigned long long)g_verif_seed, (unsigned long long)run_seed);
         status_head(hb0); status_ops("");
     }
-    if(!build_case(run_seed, c)) { G.add("c19.skip.nocase"); return false; }
+    // stage G: build the case (values, encodings, scripts) in a child; the parent only keeps bytes
+    {
+        ChildResult g = in_child([&](Buf &o) { Case cc; if(!build_case(run_seed, cc)) { o.u64(0); return; } o.u64(1); put_case(o, cc); });
+        if(!g.ok) { G.add("c19.skip.generator_died"); return false; }
+        if(!g.out.g64() || !get_case(g.out, c)) { G.add("c19.skip.nocase"); return false; }
+    }
     std::vector<std::vector<OpResult>> solo; uint64_t steps = 0;
-    solo_reference(c, solo, steps);
-    // the reference itself must be repeatable, or the oracle would be meaningless
-    { std::vector<std::vector<OpResult>> solo2; uint64_t s2; solo_reference(c, solo2, s2);
-      for(size_t t = 0; t < solo.size(); t++) for(size_t i = 0; i < solo[t].size(); i++) if(!(solo[t][i] == solo2[t][i])) { G.add("c19.skip.unstable_reference"); return false; } }
+    // stage R: every script alone, twice (the reference must be repeatable, or the oracle would be meaningless)
+    {
+        ChildResult r = in_child([&](Buf &o) {
+            std::vector<std::vector<OpResult>> a, b; uint64_t s1 = 0, s2 = 0;
+            solo_reference(c, a, s1); solo_reference(c, b, s2);
+            bool same = a.size() == b.size();
+            for(size_t t = 0; same && t < a.size(); t++) for(size_t i = 0; i < a[t].size(); i++) if(!(a[t][i] == b[t][i])) same = false;
+            o.u64(same ? 1 : 0); o.u64(s1); put_results(o, a);
+        });
+        if(!r.ok) {
+            bool anyv = true;
+            std::string sg = "C19/" + death_text(r.status) + "/solo-reference";
+            if(report) report_violation("C19", sg, "the process died while running the scripts one after the other", "property C19\nprogram " + std::string(SIM_PROGRAM) + "\nverif_seed " + std::to_string(g_verif_seed) + "\nrun_seed " + std::to_string(run_seed) + "\nsched all\n");
+            if(sig_out && sig_out->empty()) { *sig_out = sg; if(detail_out) *detail_out = "died in the solo reference"; }
+            return anyv;
+        }
+        if(!r.out.g64()) { G.add("c19.skip.unstable_reference"); return false; }
+        steps = r.out.g64(); get_results(r.out, solo);
+    }
     G.add("c19.cases");
     G.add("c19.threads", (uint64_t)c.nthreads);
     bool any = false;
@@ -265,7 +346,14 @@ static bool exec_case(uint64_t run_seed, int only_sched, unsigned nsched, bool r
         snprintf(hb, sizeof hb, "property C19\nprogram %s\nverif_seed %llu\nrun_seed %llu\nsched %u\n", SIM_PROGRAM, (unsigned long long)g_verif_seed, (unsigned long long)run_seed, s);
         status_head(hb); status_ops("");
         status_progress();
-        SchedOutcome o = run_schedule(c, solo, ss, steps);
+        // stage S: this schedule, in a child with pristine library statics
+        SchedOutcome o;
+        ChildResult sc = in_child([&](Buf &ob) {
+            SchedOutcome oc = run_schedule(c, solo, ss, steps);
+            ob.u64(oc.violated ? 1 : 0); ob.str(oc.cls); ob.str(oc.detail); ob.str(oc.site); ob.bytes(&oc.st, sizeof oc.st);
+        });
+        if(!sc.ok) { o.violated = true; o.cls = death_text(sc.status); o.site = "schedule"; o.detail = "the process died while the threads were running"; memset(&o.st, 0, sizeof o.st); G.add("c19.schedule_deaths"); }
+        else { o.violated = sc.out.g64() != 0; o.cls = sc.out.gstr(); o.detail = sc.out.gstr(); o.site = sc.out.gstr(); Bytes stb = sc.out.gbytes(); memset(&o.st, 0, sizeof o.st); if(stb.size() == sizeof o.st) memcpy(&o.st, stb.data(), sizeof o.st); }
         EV.ev("sched %u switches=%llu steps=%llu races=%llu ih=%016llx", s, (unsigned long long)o.st.switches, (unsigned long long)o.st.steps, (unsigned long long)o.st.races, (unsigned long long)o.st.interleaving_hash);
         G.add("c19.schedules"); G.add("c19.fired.preemptions", o.st.switches); G.add("c19.switch_points", o.st.steps);
         G.add("c19.instrumented_accesses", o.st.accesses); G.add("c19.libc_range_calls", o.st.range_calls);
